@@ -74,6 +74,11 @@ func (p *Path) callBuiltin(fn *ssa.Builtin, args []Value, site ssa.Instruction) 
 	case "len":
 		switch x := args[0].(type) {
 		case Slice:
+			if len(x) == 1 {
+				if sb, ok := x[0].(sizedBlob); ok {
+					return sb.n
+				}
+			}
 			return p.i64(uint64(len(x)))
 		case Str:
 			if x.sym != nil {
